@@ -3,7 +3,8 @@
     (clear_sources + ghost bookkeeping). *)
 From Coq Require Import List ZArith Bool Arith Lia.
 From LV Require Import Reactive.Graph Reactive.GraphLemmas Reactive.GraphInvariant
-                       Reactive.GraphMarkProofs Reactive.GraphPullBase Reactive.GraphPullSteps
+                       Reactive.GraphMarkProofs Reactive.GraphMarkOrigin Reactive.GraphQueueProofs
+                       Reactive.GraphPullBase Reactive.GraphPullSteps
                        Reactive.GraphPullDefs Reactive.GraphPullEval.
 Import ListNotations.
 Close Scope Z_scope.
@@ -15,16 +16,19 @@ Notation memob := (memob p).
 Notation effb := (effb p).
 Notation WF := (WF p).
 Notation Inv := (Inv p).
-Notation InvW := (InvW p).
 Notation Lcur := (Lcur p).
 Notation Lclean := (Lclean p).
-Notation MemoOKc := (MemoOKc p).
-Notation MemoOKv := (MemoOKv p).
+Notation Rest := (Rest p).
+Notation Frame := (Frame p).
 Notation cur := (cur p).
+Notation queue_ok := (queue_ok p).
 Notation PullRel := (PullRel p).
 Notation USpec := (USpec p).
 
 (* ---------------------------------------------------------------- the [any] over the sources *)
+Lemma frame_ge stk t s k : Inv stk t s -> In k stk -> t <= k.
+Proof. intros I Hk. destruct (inv_frame _ _ _ _ I k Hk) as (_&_&_&F4&_). exact F4. Qed.
+
 Lemma any_src_spec i U : USpec i U ->
   forall l c s stk s1 need,
     (forall x, In x l -> x < i) ->
@@ -34,46 +38,55 @@ Lemma any_src_spec i U : USpec i U ->
     Inv stk i s1 /\ PullRel i stk None s s1 /\
     (need = false ->
        st (getn s1 i) <> Dirty /\
-       forall x, In x l -> memob x = true -> st (getn s1 x) = Clean).
+       forall x, In x l -> memob x = true -> st (getn s1 x) = Clean) /\
+    (need = true ->
+       st (getn s1 i) = Dirty \/
+       exists x, In x l /\ forall k, In x (tracked_of (rlog (getn s1 k))) -> since (getn s1 k) <> []).
 Proof.
   intros HU l. induction l as [|x l IH]; intros c s stk s1 need Hl I C Hnd Ha; cbn [any_src] in Ha.
-  - inversion Ha; subst. split; auto. split; [apply PullRel_refl|].
+  - inversion Ha; subst. split; auto. split; [apply PullRel_refl|]. split; [|discriminate].
     intros _. split; auto. intros x [].
   - destruct (U c x s) as [s2 ch] eqn:EU.
     assert (Hx : x < i) by (apply Hl; left; auto).
-    destruct (HU c x s stk i s2 ch Hx Hx I C EU) as (I2 & P2 & _ & Hcl).
+    destruct (HU c x s stk i s2 ch Hx Hx I C EU) as (I2 & P2 & _ & Hcl & Hcause).
     assert (P2' : PullRel i stk None s s2) by (eapply PullRel_weaken; [|exact P2]; lia).
     destruct (ch || nstate_eqb (st (getn s2 i)) Dirty) eqn:Ec.
-    + inversion Ha; subst. split; auto. split; auto. discriminate.
+    + inversion Ha; subst. split; auto. split; auto. split; [discriminate|].
+      intros _. destruct ch.
+      * right. exists x. split; [left; auto|]. apply Hcause; auto.
+      * left. cbn in Ec. apply nstate_eqb_eq in Ec. exact Ec.
     + apply orb_false_elim in Ec as [-> Ed]. apply nstate_eqb_neq in Ed.
-      destruct (IH c s2 stk s1 need) as (I1 & P1 & Hn); auto.
+      destruct (IH c s2 stk s1 need) as (I1 & P1 & Hn & Hy); auto.
       { intros y Hy. apply Hl; right; auto. }
-      split; auto. split; [eapply PullRel_trans; eauto|].
-      intros Hf. destruct (Hn Hf) as [Hd Hall]. split; auto.
-      intros y [<-|Hy] Hm; auto.
-      destruct (Hcl Hm) as [Hc2 _].
-      apply (pr_stable _ _ _ _ _ _ P1 x Hm); auto.
-      intros Hin. destruct I as [Iw _]. pose proof (inv_run_ge _ _ _ _ Iw x Hin). lia.
+      split; auto. split; [eapply PullRel_trans; eauto|]. split.
+      * intros Hf. destruct (Hn Hf) as [Hd Hall]. split; auto.
+        intros y [<-|Hy'] Hm; auto.
+        destruct (Hcl Hm) as [Hc2 _].
+        apply (pr_stable _ _ _ _ _ _ P1 x Hm); auto.
+        intros Hin. pose proof (frame_ge stk i s x I Hin). lia.
+      * intros Ht. destruct (Hy Ht) as [?|(y & Hy1 & Hy2)]; auto.
+        right. exists y. split; auto. right; auto.
 Qed.
 
 (* ---------------------------------------------------------------- nothing changed: back to Clean *)
 Lemma memo_keep stk i s :
   Inv stk i s -> memob i = true -> ~ In i stk ->
-  st (getn s i) <> Dirty ->
+  st (getn s i) <> Dirty -> cache (getn s i) <> None ->
   (forall x v, In (x, v, true) (rlog (getn s i)) -> memob x = true -> st (getn s x) = Clean) ->
   let s' := updn i (fun n => set_st n Clean) s in
   Inv stk i s' /\ PullRel (S i) stk None s s' /\ subs (getn s' i) = subs (getn s i) /\
   st (getn s' i) = Clean /\ cache (getn s' i) <> None.
 Proof.
-  intros [I Iv] Hm Hni Hnd Hsrc. cbv zeta.
+  intros I Hm Hni Hnd Hcache Hsrc. cbv zeta.
   set (s' := updn i (fun n => set_st n Clean) s).
   assert (W : WF s) by apply I.
   assert (Hi : i < nlen s) by (eapply memob_range; eauto).
+  destruct (memob_decl p i Hm) as (cm & e & Hd).
   assert (Hsame : forall k, k <> i -> getn s' k = getn s k) by (intros k Hk; apply getn_updn_other; auto).
   assert (Hat : getn s' i = set_st (getn s i) Clean) by (apply getn_updn_same; auto).
   assert (Hf : forall k, sval (getn s' k) = sval (getn s k) /\ cache (getn s' k) = cache (getn s k) /\
                          rlog (getn s' k) = rlog (getn s k) /\ srcs (getn s' k) = srcs (getn s k) /\
-                         subs (getn s' k) = subs (getn s k)).
+                         subs (getn s' k) = subs (getn s k) /\ since (getn s' k) = since (getn s k)).
   { intros k. destruct (Nat.eq_dec k i) as [->|Hk]; [rewrite Hat; nsimpl|rewrite Hsame by auto]; intuition. }
   assert (Hst : forall k, st (getn s' k) = if Nat.eqb k i then Clean else st (getn s k)).
   { intros k. destruct (Nat.eqb_spec k i) as [->|Hk]; [rewrite Hat; reflexivity|rewrite Hsame; auto]. }
@@ -83,42 +96,42 @@ Proof.
   assert (Hrl : forall k, rlog (getn s' k) = rlog (getn s k)) by (intros k; apply Hf).
   assert (Hca : forall k, cache (getn s' k) = cache (getn s k)) by (intros k; apply Hf).
   assert (Hsr : forall k, srcs (getn s' k) = srcs (getn s k)) by (intros k; apply Hf).
-  assert (Hcache : cache (getn s i) <> None).
-  { pose proof (inv_memo_c _ _ _ _ I i Hm Hni) as HM. unfold GraphInvariant.MemoOKc in HM.
-    destruct (cache (getn s i)); [discriminate|]. destruct HM; congruence. }
+  assert (Hq : forall k, qview_eq (getn s k) (getn s' k)).
+  { intros k. destruct (Nat.eq_dec k i) as [->|Hk]; [rewrite Hat|rewrite Hsame by auto];
+      unfold qview_eq; nsimpl; intuition. }
   assert (W' : WF s').
   { apply (WF_same_edges p s s'); auto. apply nlen_updn. intros k. split; apply Hf. }
   split; [|split; [|split; [|split]]].
-  - split; [split|].
+  - split.
     + exact W'.
     + apply I.
-    + intros k Hk. apply (L1_ext s s' k (Hrl k) (Hsr k)). apply I; auto.
-    + intros k Hmk Hk. pose proof (inv_memo_c _ _ _ _ I k Hmk Hk) as HM.
-      unfold GraphInvariant.MemoOKc in *. rewrite Hca.
-      destruct (cache (getn s k)) eqn:Ec.
-      * intros Hc. destruct (Nat.eq_dec k i) as [->|Hki].
-        -- intros x v Hx Hmx. rewrite Hrl in Hx. apply Hclean. eapply Hsrc; eauto.
-        -- rewrite Hst in Hc. destruct (Nat.eqb_spec k i); [congruence|].
-           apply (Lclean_ext p s s' k (Hrl k)); [|auto]. intros x v _ _ Hcx. apply Hclean; auto.
-      * destruct (Nat.eq_dec k i) as [->|Hki]; [congruence|]. rewrite Hsame by auto. exact HM.
-    + intros k Hk. apply (Lcur_ext p s s' k (Hrl k)); [|apply I; auto]. intros x v _; apply Hcur.
-    + intros k Hk. apply (Lclean_ext p s s' k (Hrl k)); [|apply I; auto].
-      intros x v _ _ Hc. apply Hclean; auto.
-    + intros k x Hk. rewrite Hsr, Hrl. apply I; auto.
     + apply I.
-    + apply I.
-    + intros k Hk Hmk. rewrite Hst. destruct (Nat.eqb_spec k i) as [->|]; [contradiction|].
-      eapply inv_run_nc; eauto.
-    + intros k Hmk Hk. unfold GraphInvariant.MemoOKv. rewrite Hca. intros Hcn Hd.
-      apply (Lcur_ext p s s' k (Hrl k)). { intros x v _; apply Hcur. }
-      apply (Iv k Hmk Hk Hcn). destruct (Nat.eq_dec k i) as [->|Hki]; auto.
-      rewrite Hst in Hd. destruct (Nat.eqb_spec k i); [congruence|auto].
+    + intros k Hk. destruct (Nat.eq_dec k i) as [->|Hki].
+      * destruct (inv_rest _ _ _ _ I i Hk) as (R1 & R2 & R3 & R4 & R5).
+        split; [apply (L1_ext s s' i (Hrl i) (Hsr i)); auto|].
+        unfold GraphInvariant.needs_cur, GraphInvariant.needs_clean, GraphInvariant.will_run in *.
+        rewrite Hd in *. cbn [uncached_ok needs_cur_n needs_clean_n will_run_n] in *.
+        rewrite Hca. split; [intros Hc; congruence|]. split; [|split].
+        -- intros _. apply (Lcur_ext p s s' i (Hrl i)); [intros x v _; apply Hcur|]. apply R3; auto.
+        -- intros _ x v Hx Hmx. rewrite Hrl in Hx. apply Hclean. eapply Hsrc; eauto.
+        -- intros [_ Hds]. rewrite Hst, Nat.eqb_refl in Hds. discriminate.
+      * apply (Rest_ext p s s' k); [rewrite (Hsame k Hki); apply nview_eq_refl| | |apply I; auto].
+        -- intros x v _; apply Hcur.
+        -- intros x v _ _ Hc. apply Hclean; auto.
+    + apply (queue_transfer p s s'); auto. apply I.
+    + intros k Hk.
+      assert (Hki : k <> i) by (intros ->; auto).
+      apply (Frame_ext p i s s' k (Hrl k) (Hsr k)); [| | | |apply I; auto].
+      * intros _. rewrite Hst. destruct (Nat.eqb_spec k i); [congruence|auto].
+      * intros _. rewrite (Hsame k Hki). auto.
+      * intros x v _; apply Hcur.
+      * intros x v _ _ Hc. apply Hclean; auto.
   - split.
     + apply nlen_updn.
     + intros k; apply Hf.
     + intros k Hmk Hk Hc. rewrite (Hclean k Hc), Hca, Hrl, Hsr. auto.
     + intros y Hy _. rewrite Hrl, Hsr. auto.
-    + intros y Hy. rewrite Hca. destruct (Hf y) as (_&_&_&_&->). split; auto. split; auto.
+    + intros y Hy. rewrite Hca. destruct (Hf y) as (_&_&_&_&->&_). split; auto. split; auto.
       rewrite Hst. destruct (Nat.eqb_spec y i); [lia|apply st_le_refl].
     + intros k. destruct (Nat.eq_dec k i) as [->|Hk]; [rewrite Hat; nsimpl|rewrite Hsame by auto]; intuition.
     + reflexivity.
@@ -148,16 +161,26 @@ Proof.
     rewrite list_upd_length; auto.
 Qed.
 
+Lemma begin_run_nocause fr i s :
+  fr = true \/ since (getn s i) <> [] -> nocause (begin_run fr i s) = nocause s.
+Proof.
+  intros H. unfold begin_run. destruct fr; [reflexivity|].
+  destruct H as [H|H]; [discriminate|]. destruct (since (getn s i)); [congruence|reflexivity].
+Qed.
+
 Lemma memo_begin stk i fr s :
   Inv stk i s -> ~ In i stk -> (forall k, In k stk -> i < k) -> i < length p ->
   (memob i = true -> st (getn s i) <> Clean) ->
+  (effb i = true -> edirty (getn s i) = false) ->
+  (fr = true \/ since (getn s i) <> []) ->
   let s' := begin_run fr i (clear_sources i s) in
   Inv (i :: stk) i s' /\ L1 s' i /\ PullRel (S i) stk None s s' /\
   subs (getn s' i) = subs (getn s i) /\ cache (getn s' i) = cache (getn s i) /\
   st (getn s' i) = st (getn s i) /\
-  (forall k, In k stk -> rlog (getn s' k) = rlog (getn s k) /\ srcs (getn s' k) = srcs (getn s k)).
+  (forall k, In k stk -> rlog (getn s' k) = rlog (getn s k) /\ srcs (getn s' k) = srcs (getn s k)) /\
+  qview_eq (getn s i) (getn s' i).
 Proof.
-  intros [I Iv] Hni Hgt Hil Hnc. cbv zeta.
+  intros I Hni Hgt Hil Hnc Hnd Hcause. cbv zeta.
   assert (W : WF s) by apply I.
   assert (Hi : i < nlen s) by (rewrite (wf_len p s W); auto).
   set (s1 := clear_sources i s).
@@ -169,10 +192,15 @@ Proof.
   assert (Hsu1 := fun k => clear_subs p i s W Hi k). fold s1 in Hsu1.
   assert (Hb : forall k, getn s' k = if Nat.eqb i k then set_since (set_rlog (getn s1 k) []) [] else getn s1 k).
   { intros k. unfold s'. rewrite begin_run_getn, Hl1. apply Nat.ltb_lt in Hi. rewrite Hi, andb_true_r. reflexivity. }
+  assert (Hoth : forall k, k <> i -> nview_eq (getn s k) (getn s' k)).
+  { intros k Hk. rewrite Hb. destruct (Nat.eqb_spec i k); [congruence|].
+    specialize (Hc1 k). unfold nview_eq. rewrite Hsr1. destruct (Nat.eqb_spec k i); [congruence|]. intuition. }
   assert (Hf : forall k, sval (getn s' k) = sval (getn s k) /\ st (getn s' k) = st (getn s k) /\
                          cache (getn s' k) = cache (getn s k) /\ subs (getn s' k) = unsubscribe (subs (getn s k)) i).
   { intros k. rewrite Hb. specialize (Hc1 k). rewrite <- Hsu1.
     destruct (Nat.eqb i k); nsimpl; intuition. }
+  assert (Hq : forall k, qview_eq (getn s k) (getn s' k)).
+  { intros k. rewrite Hb. specialize (Hc1 k). unfold qview_eq. destruct (Nat.eqb i k); nsimpl; intuition. }
   assert (Hrl : forall k, rlog (getn s' k) = if Nat.eqb i k then [] else rlog (getn s k)).
   { intros k. rewrite Hb. specialize (Hc1 k). destruct (Nat.eqb i k); nsimpl; intuition. }
   assert (Hsr : forall k, srcs (getn s' k) = if Nat.eqb i k then [] else srcs (getn s k)).
@@ -183,10 +211,8 @@ Proof.
   assert (Hst : forall k, st (getn s' k) = st (getn s k)) by (intros k; apply Hf).
   assert (Hca : forall k, cache (getn s' k) = cache (getn s k)) by (intros k; apply Hf).
   assert (Hcur : forall x, cur s' x = cur s x) by (intros x; apply cur_view; apply Hf).
-  assert (Hrlk : forall k, k <> i -> rlog (getn s' k) = rlog (getn s k)).
-  { intros k Hk. rewrite Hrl. destruct (Nat.eqb_spec i k); [congruence|reflexivity]. }
-  assert (Hsrk : forall k, k <> i -> srcs (getn s' k) = srcs (getn s k)).
-  { intros k Hk. rewrite Hsr. destruct (Nat.eqb_spec i k); [congruence|reflexivity]. }
+  assert (Hrlk : forall k, k <> i -> rlog (getn s' k) = rlog (getn s k)) by (intros k Hk; apply (Hoth k Hk)).
+  assert (Hsrk : forall k, k <> i -> srcs (getn s' k) = srcs (getn s k)) by (intros k Hk; apply (Hoth k Hk)).
   assert (Hrli : rlog (getn s' i) = []) by (rewrite Hrl, Nat.eqb_refl; reflexivity).
   assert (Hsri : srcs (getn s' i) = []) by (rewrite Hsr, Nat.eqb_refl; reflexivity).
   assert (Hnk : forall k, In k stk -> k <> i) by (intros k Hk ->; auto).
@@ -197,61 +223,65 @@ Proof.
   assert (Hsui : subs (getn s' i) = subs (getn s i)).
   { destruct (Hf i) as (_&_&_&->). apply unsubscribe_notin. intros Hin.
     pose proof (wf_sub_gt p s i i W Hin). lia. }
-  split; [|split; [|split; [|split; [|split; [|split]]]]]; auto.
-  - split; [split|].
+  destruct (clear_misc p i s W) as (Ce & Cr & _ & Cn & Ch). fold s1 in Ce, Cr, Cn, Ch.
+  destruct (begin_run_misc fr i s1) as (Bl & Be & Br & Bh). fold s' in Bl, Be, Br, Bh.
+  split; [|split; [|split; [|split; [|split; [|split; [|split]]]]]]; auto.
+  - split.
     + exact W'.
-    + unfold s'. rewrite (proj1 (proj2 (begin_run_misc fr i s1))).
-      unfold s1. rewrite (proj1 (clear_misc p i s W)). apply I.
-    + intros k Hk. assert (k <> i) by (intros ->; apply Hk; left; auto).
-      apply (L1_ext s s' k (Hrlk k H) (Hsrk k H)). apply I. intros Hin; apply Hk; right; auto.
-    + intros k Hmk Hk. assert (k <> i) by (intros ->; apply Hk; left; auto).
-      apply (MemoOKc_ext p s s' k (Hst k) (Hca k) (Hrlk k H)).
-      * intros x v _ _ Hc. rewrite Hst; auto.
-      * apply I; auto. intros Hin; apply Hk; right; auto.
-    + intros k [<-|Hk].
-      * intros x v Hx. rewrite Hrli in Hx. destruct Hx.
-      * apply (Lcur_ext p s s' k (Hrlk k (Hnk k Hk))); [|apply I; auto]. intros x v _; apply Hcur.
-    + intros k [<-|Hk].
-      * intros x v Hx. rewrite Hrli in Hx. destruct Hx.
-      * apply (Lclean_ext p s s' k (Hrlk k (Hnk k Hk))); [|apply I; auto].
-        intros x v _ _ Hc. rewrite Hst; auto.
-    + intros k x [<-|Hk].
-      * rewrite Hsri. intros [].
-      * rewrite (Hsrk k (Hnk k Hk)), (Hrlk k (Hnk k Hk)). apply I; auto.
-    + intros k [<-|Hk]; auto. apply I; auto.
-    + intros k [<-|Hk]; auto. eapply inv_run_range; eauto.
-    + intros k [<-|Hk] Hmk; rewrite Hst; auto. eapply inv_run_nc; eauto.
-    + intros k Hmk Hk. assert (k <> i) by (intros ->; apply Hk; left; auto).
-      apply (MemoOKv_ext p s s' k (Hst k) (Hca k) (Hrlk k H)).
+    + rewrite Be, Ce. apply I.
+    + unfold s'. rewrite begin_run_nocause.
+      * rewrite Cn. apply I.
+      * destruct Hcause as [?|Hs]; auto. right. destruct (Hc1 i) as (_&_&_&_&->&_). exact Hs.
+    + intros k Hk. assert (Hki : k <> i) by (intros ->; apply Hk; left; auto).
+      apply (Rest_ext p s s' k (Hoth k Hki)).
       * intros x v _; apply Hcur.
-      * apply Iv; auto. intros Hin; apply Hk; right; auto.
+      * intros x v _ _ Hc. rewrite Hst; auto.
+      * apply I. intros Hin; apply Hk; right; auto.
+    + apply (queue_transfer p s s'); auto. { rewrite Br, Cr. reflexivity. } apply I.
+    + intros k [<-|Hk].
+      * split; [intros x v Hx; rewrite Hrli in Hx; destruct Hx|].
+        split; [intros x v Hx; rewrite Hrli in Hx; destruct Hx|].
+        split; [intros x Hx; rewrite Hsri in Hx; destruct Hx|].
+        split; [auto|]. split; [auto|]. split; [intros Hm; rewrite Hst; auto|].
+        intros He. destruct (Hq i) as (->&_). auto.
+      * apply (Frame_ext p i s s' k (Hrlk k (Hnk k Hk)) (Hsrk k (Hnk k Hk))); [| | | |apply I; auto].
+        -- intros _. rewrite Hst; auto.
+        -- intros _. destruct (Hq k) as (->&_). auto.
+        -- intros x v _; apply Hcur.
+        -- intros x v _ _ Hc. rewrite Hst; auto.
   - unfold L1. rewrite Hsri, Hrli. reflexivity.
   - split.
-    + unfold s'. rewrite (proj1 (begin_run_misc fr i s1)). exact Hl1.
+    + rewrite Bl. exact Hl1.
     + intros k; apply Hf.
-    + intros k Hmk Hk Hc. assert (k <> i) by (intros ->; apply (Hnc Hmk); auto).
-      rewrite Hst, Hca, (Hrlk k H), (Hsrk k H). auto.
+    + intros k Hmk Hk Hc. assert (Hki : k <> i) by (intros ->; apply (Hnc Hmk); auto).
+      rewrite Hst, Hca, (Hrlk k Hki), (Hsrk k Hki). auto.
     + intros y Hy _. split; [apply Hrlk|apply Hsrk]; lia.
     + intros y Hy. rewrite Hca, Hst. split; auto. split; [apply st_le_refl|].
       destruct (Hf y) as (_&_&_&->). apply unsubscribe_notin. intros Hin.
       pose proof (wf_sub_gt p s y i W Hin). lia.
     + intros k. rewrite Hb. specialize (Hc1 k). destruct (Nat.eqb i k); nsimpl; intuition.
-    + unfold s'. rewrite (proj2 (proj2 (proj2 (begin_run_misc fr i s1)))).
-      unfold s1. apply (clear_misc p i s W).
+    + rewrite Bh. exact Ch.
 Qed.
 
 (* ---------------------------------------------------------------- the run is over *)
+Lemma add_cause_node j s k :
+  getn (add_cause j s) k =
+  if tracks (getn s k) j then set_since (getn s k) (j :: since (getn s k)) else getn s k.
+Proof.
+  unfold add_cause, getn. cbn [nodes set_nodes].
+  set (f := fun n : node => if tracks n j then set_since n (j :: since n) else n).
+  change dnode with (f dnode) at 1.
+  rewrite map_nth. reflexivity.
+Qed.
+
 Lemma add_cause_getn j s k :
   let n := getn s k in let n' := getn (add_cause j s) k in
   sval n' = sval n /\ subs n' = subs n /\ st n' = st n /\ cache n' = cache n /\ srcs n' = srcs n /\
   rlog n' = rlog n /\ edirty n' = edirty n /\ eflag n' = eflag n /\ ereg n' = ereg n /\
   efirst n' = efirst n /\ epaused n' = epaused n /\ ealive n' = ealive n /\ edone n' = edone n /\
-  emissed n' = emissed n.
+  emissed n' = emissed n /\ epoll n' = epoll n.
 Proof.
-  cbv zeta. unfold add_cause, getn. cbn [nodes set_nodes].
-  set (f := fun n : node => if tracks n j then set_since n (j :: since n) else n).
-  change dnode with (f dnode) at 1 3 5 7 9 11 13 15 17 19 21 23 25 27.
-  rewrite map_nth. unfold f. destruct (tracks _ j); nsimpl; intuition.
+  cbv zeta. rewrite add_cause_node. destruct (tracks _ j); nsimpl; intuition.
 Qed.
 
 Lemma add_cause_misc j s :
@@ -267,7 +297,7 @@ Record FinRel (i : nat) (s s' : state) : Prop := {
                       srcs (getn s' k) = srcs (getn s k) /\ subs (getn s' k) = subs (getn s k) /\
                       efirst (getn s' k) = efirst (getn s k) /\ epaused (getn s' k) = epaused (getn s k) /\
                       ealive (getn s' k) = ealive (getn s k) /\ edone (getn s' k) = edone (getn s k) /\
-                      emissed (getn s' k) = emissed (getn s k);
+                      emissed (getn s' k) = emissed (getn s k) /\ epoll (getn s' k) = epoll (getn s k);
   fr_other : forall k, k <> i -> cache (getn s' k) = cache (getn s k) /\ st_le (st (getn s k)) (st (getn s' k));
   fr_stable : forall k, memob k = true -> k <> i -> st (getn s k) = Clean -> st (getn s' k) = Clean;
   fr_halted : halted s' = halted s
@@ -279,22 +309,35 @@ Definition changed_of (cm : cmp) (old : option Z) (v : Z) : bool :=
   | CNe => match old with Some o => negb (Z.eqb o v) | None => true end
   end.
 
+Lemma DirtyAt_not_needs_cur s k : DirtyAt p s k -> ~ needs_cur p s k.
+Proof.
+  intros [D1 D2] H. unfold GraphInvariant.needs_cur, needs_cur_n in H.
+  destruct (decl_of p k) eqn:Hd; try contradiction.
+  - destruct H as [_ H]. apply H. apply D1. unfold GraphInvariant.memob. rewrite Hd. auto.
+  - destruct H as (Ha & _ & Hdf). destruct D2 as [_ Hdt]; auto.
+    { unfold GraphInvariant.effb. rewrite Hd. auto. } congruence.
+Qed.
+
 Lemma memo_finish stk i cm c v se :
   Inv (i :: stk) i se -> L1 se i ->
   memob i = true -> ~ In i stk ->
   (forall k, In k stk -> ~ In i (tracked_of (rlog (getn se k)))) ->
   (forall x, In x (subs (getn se i)) -> memob x = true -> st (getn se x) <> Clean) ->
   (forall o, obs_of c = Some o -> In o stk) ->
+  (forall k, In k stk -> obs_is c k = false -> ~ In k (subs (getn se i))) ->
   let sM := updn i (fun n => set_st (set_cache n (Some v)) Clean) (emit (EvEnd i v) se) in
   let s' := if changed_of cm (cache (getn se i)) v
             then fold_left (fun s k => if obs_is c k then s else mark_dirty p k s)
                            (subs (getn sM i)) (add_cause i sM)
             else sM in
-  Inv stk i s' /\ FinRel i se s' /\ st (getn s' i) = Clean /\ cache (getn s' i) = Some v.
+  Inv stk i s' /\ FinRel i se s' /\ st (getn s' i) = Clean /\ cache (getn s' i) = Some v /\
+  (changed_of cm (cache (getn se i)) v = true ->
+     forall k, In i (tracked_of (rlog (getn s' k))) -> since (getn s' k) <> []).
 Proof.
-  intros [I Iv] HL1 Hm Hni Hnl Hroots Hobs. cbv zeta.
+  intros I HL1 Hm Hni Hnl Hroots Hobs Hpend. cbv zeta.
   assert (W : WF se) by apply I.
   assert (Hi : i < nlen se) by (eapply memob_range; eauto).
+  destruct (memob_decl p i Hm) as (cmi & ei & Hdi).
   set (sM := updn i (fun n => set_st (set_cache n (Some v)) Clean) (emit (EvEnd i v) se)).
   assert (HMo : forall k, k <> i -> getn sM k = getn se k).
   { intros k Hk. unfold sM. rewrite getn_updn_other by auto. apply getn_emit. }
@@ -302,10 +345,10 @@ Proof.
   { unfold sM. rewrite getn_updn_same by (rewrite nlen_emit; auto). rewrite getn_emit. reflexivity. }
   assert (HMf : forall k, sval (getn sM k) = sval (getn se k) /\ rlog (getn sM k) = rlog (getn se k) /\
                   srcs (getn sM k) = srcs (getn se k) /\ subs (getn sM k) = subs (getn se k) /\
-                  efirst (getn sM k) = efirst (getn se k) /\ epaused (getn sM k) = epaused (getn se k) /\
-                  ealive (getn sM k) = ealive (getn se k) /\ edone (getn sM k) = edone (getn se k) /\
-                  emissed (getn sM k) = emissed (getn se k)).
-  { intros k. destruct (Nat.eq_dec k i) as [->|Hk]; [rewrite HMi; nsimpl|rewrite HMo by auto]; intuition. }
+                  since (getn sM k) = since (getn se k) /\ qview_eq (getn se k) (getn sM k) /\
+                  epaused (getn sM k) = epaused (getn se k)).
+  { intros k. destruct (Nat.eq_dec k i) as [->|Hk]; [rewrite HMi; nsimpl|rewrite HMo by auto];
+      unfold qview_eq; nsimpl; intuition. }
   assert (HMst : forall k, st (getn sM k) = if Nat.eqb k i then Clean else st (getn se k)).
   { intros k. destruct (Nat.eqb_spec k i) as [->|Hk]; [rewrite HMi; reflexivity|rewrite HMo; auto]. }
   assert (HMca : forall k, cache (getn sM k) = if Nat.eqb k i then Some v else cache (getn se k)).
@@ -314,40 +357,45 @@ Proof.
   { apply (WF_same_edges p se sM); auto.
     - unfold sM. rewrite nlen_updn. reflexivity.
     - intros k. destruct (HMf k) as (_&_&?&?&_). auto. }
-  (* sources of i are below i, hence different from i *)
+  assert (QM : QueueAll p sM).
+  { unfold QueueAll. apply (queue_transfer p se sM); [reflexivity| |apply I]. intros e; apply HMf. }
+  (* the frame of i *)
+  destruct (inv_frame _ _ _ _ I i (or_introl eq_refl)) as (Hfr_cur & Hfr_clean & _).
   assert (Hsrc_lt : forall x w, In (x, w, true) (rlog (getn se i)) -> x <> i).
   { intros x w Hx ->. assert (In i (srcs (getn se i))).
     { rewrite HL1. apply in_tracked_of. eauto. }
     pose proof (wf_srclt p se W i i H). lia. }
-  assert (Hfr_cur : Lcur se i) by (apply I; left; auto).
-  assert (Hfr_clean : Lclean se i) by (apply I; left; auto).
   assert (Hnk : forall k, In k stk -> k <> i) by (intros k Hk ->; auto).
   assert (Hnin : forall k, ~ In k stk -> k <> i -> ~ In k (i :: stk)) by (intros k H1 H2 [H|H]; auto).
+  assert (HcurM : forall x, cur sM x = if Nat.eqb x i then v else cur se x).
+  { intros x. unfold GraphInvariant.cur, cache_val. rewrite HMca. destruct (HMf x) as (->&_).
+    destruct (Nat.eqb_spec x i) as [->|]; auto. rewrite Hdi. reflexivity. }
   (* ---- the final state and what it shares with [se] *)
-  set (s' := if changed_of cm (cache (getn se i)) v
+  set (ch := changed_of cm (cache (getn se i)) v).
+  set (s' := if ch
              then fold_left (fun s k => if obs_is c k then s else mark_dirty p k s)
                             (subs (getn sM i)) (add_cause i sM)
              else sM).
   assert (Hfin :
-    nlen s' = nlen se /\ err s' = false /\ halted s' = halted se /\
+    (nlen s' = nlen se /\ err s' = false /\ halted s' = halted se /\ nocause s' = 0 /\ QueueAll p s') /\
     (forall k, sval (getn s' k) = sval (getn se k) /\ rlog (getn s' k) = rlog (getn se k) /\
                srcs (getn s' k) = srcs (getn se k) /\ subs (getn s' k) = subs (getn se k) /\
                efirst (getn s' k) = efirst (getn se k) /\ epaused (getn s' k) = epaused (getn se k) /\
                ealive (getn s' k) = ealive (getn se k) /\ edone (getn s' k) = edone (getn se k) /\
-               emissed (getn s' k) = emissed (getn se k)) /\
+               emissed (getn s' k) = emissed (getn se k) /\ epoll (getn s' k) = epoll (getn se k)) /\
     (forall k, cache (getn s' k) = if Nat.eqb k i then Some v else cache (getn se k)) /\
     st (getn s' i) = Clean /\
     (forall k, k <> i -> st_le (st (getn se k)) (st (getn s' k))) /\
     (forall k, memob k = true -> k <> i -> st (getn se k) = Clean -> st (getn s' k) = Clean) /\
     (forall x, cur s' x = if Nat.eqb x i then v else cur se x) /\
-    (changed_of cm (cache (getn se i)) v = true ->
-       forall k, In k (subs (getn se i)) -> obs_is c k = false -> memob k = true -> st (getn s' k) = Dirty) /\
-    (changed_of cm (cache (getn se i)) v = false -> cur se i = v)).
-  { assert (HcurM : forall x, cur sM x = if Nat.eqb x i then v else cur se x).
-    { intros x. unfold GraphInvariant.cur, cache_val. rewrite HMca. destruct (HMf x) as (->&_).
-      destruct (Nat.eqb_spec x i) as [->|]; auto.
-      unfold GraphInvariant.memob in Hm. destruct (decl_of p i); try discriminate. reflexivity. }
-    unfold s'. destruct (changed_of cm (cache (getn se i)) v) eqn:Ech.
+    (forall k, bool_le (edirty (getn se k)) (edirty (getn s' k)) /\ bool_le (eflag (getn se k)) (eflag (getn s' k))) /\
+    (forall k, since (getn s' k) = if ch && tracks (getn se k) i then i :: since (getn se k) else since (getn se k)) /\
+    (forall k, k <> i ->
+       (st (getn s' k) = Dirty -> st (getn se k) = Dirty \/ (ch = true /\ In k (subs (getn se i)) /\ obs_is c k = false)) /\
+       (edirty (getn s' k) = true -> edirty (getn se k) = true \/ (ch = true /\ In k (subs (getn se i)) /\ obs_is c k = false))) /\
+    (ch = true -> forall k, In k (subs (getn se i)) -> obs_is c k = false -> DirtyAt p s' k) /\
+    (ch = false -> cur se i = v)).
+  { unfold s'. destruct ch eqn:Ech.
     - (* subscribers are marked *)
       set (sN := add_cause i sM).
       assert (HN := fun k => add_cause_getn i sM k). cbv zeta in HN. fold sN in HN.
@@ -357,7 +405,10 @@ Proof.
       assert (HNst : forall k, st (getn sN k) = st (getn sM k)) by (intros k; apply HN).
       assert (HNsubs : subs (getn sN i) = subs (getn se i)).
       { destruct (HN i) as (_&->&_). apply HMf. }
-      assert (USe : UpClosed p se) by (eapply InvW_UpClosed; eauto).
+      assert (QN : QueueAll p sN).
+      { unfold QueueAll. destruct HNm as (_&_&Hrn&_). apply (queue_transfer p sM sN Hrn); [|exact QM].
+        intros e. specialize (HN e). unfold qview_eq. intuition. }
+      assert (USe : UpClosed p se) by (eapply Inv_UpClosed; eauto).
       assert (UN : UpClosed p sN).
       { intros y x Hy Hny Hx Hmx.
         rewrite HNst, HMst in Hny. rewrite HNst, HMst.
@@ -384,20 +435,20 @@ Proof.
       destruct (mark_dirty_list p (obs_is c) (subs (getn sN i)) (fun _ _ => False) sN sN WN (MarkRel_refl p sN))
         as (_ & _ & DF).
       { intros y k HE; contradiction. }
+      assert (OR := fun k => mark_dirty_list_origin p (obs_is c) (subs (getn sN i)) sN k). cbv zeta in OR.
+      assert (QF := mark_dirty_list_queue p (obs_is c) (subs (getn sN i)) sN QN).
       set (sF := fold_left (fun a k => if obs_is c k then a else mark_dirty p k a) (subs (getn sN i)) sN) in *.
-      assert (Hcore : forall k, let n := getn sM k in let n' := getn sF k in
-                sval n' = sval n /\ subs n' = subs n /\ cache n' = cache n /\ srcs n' = srcs n /\
-                rlog n' = rlog n /\ efirst n' = efirst n /\ epaused n' = epaused n /\
-                ealive n' = ealive n /\ edone n' = edone n /\ emissed n' = emissed n).
-      { intros k. cbv zeta. pose proof (mr_core p _ _ MR k) as H. unfold same_core in H. specialize (HN k).
-        intuition congruence. }
-      split; [rewrite (mr_len p _ _ MR); destruct HNm as (->&_); unfold sM; rewrite nlen_updn; reflexivity|].
-      split; [rewrite (mr_err p _ _ MR); destruct HNm as (_&->&_); apply I|].
-      split; [rewrite (mr_halted p _ _ MR); destruct HNm as (_&_&_&->&_); reflexivity|].
+      assert (Hcore : forall k, same_core (getn sN k) (getn sF k)) by (intros k; apply (mr_core p _ _ MR k)).
       split.
-      { intros k. destruct (Hcore k) as (?&?&?&?&?&?&?&?&?&?). specialize (HMf k). intuition congruence. }
+      { split; [rewrite (mr_len p _ _ MR); destruct HNm as (->&_); unfold sM; rewrite nlen_updn; reflexivity|].
+        split; [rewrite (mr_err p _ _ MR); destruct HNm as (_&->&_); apply I|].
+        split; [rewrite (mr_halted p _ _ MR); destruct HNm as (_&_&_&->&_); reflexivity|].
+        split; [rewrite (mr_nocause p _ _ MR); destruct HNm as (_&_&_&_&_&->); apply I|exact QF]. }
       split.
-      { intros k. destruct (Hcore k) as (_&_&->&_). apply HMca. }
+      { intros k. destruct (Hcore k) as (?&?&?&?&?&?&?&?&?&?&?&?). specialize (HN k).
+        destruct (HMf k) as (?&?&?&?&?&Hq&?). unfold qview_eq in Hq. intuition congruence. }
+      split.
+      { intros k. destruct (Hcore k) as (_&_&->&_). destruct (HN k) as (_&_&_&->&_). apply HMca. }
       split.
       { apply SF; auto. rewrite HNst, HMst, Nat.eqb_refl. reflexivity. }
       split.
@@ -407,25 +458,51 @@ Proof.
       { intros k Hmk Hk Hc. apply SF; auto. rewrite HNst, HMst. destruct (Nat.eqb_spec k i); [congruence|auto]. }
       split.
       { intros x. rewrite <- HcurM. unfold GraphInvariant.cur, cache_val.
-        destruct (Hcore x) as (->&_&->&_). reflexivity. }
+        destruct (Hcore x) as (->&_&->&_). destruct (HN x) as (->&_&_&->&_). reflexivity. }
+      split.
+      { intros k. destruct (HN k) as (_&_&_&_&_&_&Hd&Hf&_). destruct (HMf k) as (_&_&_&_&_&Hq&_).
+        unfold qview_eq in Hq. destruct Hq as (Hd'&Hf'&_).
+        pose proof (mr_edirty p _ _ MR k) as B1. pose proof (mr_eflag p _ _ MR k) as B2.
+        rewrite Hd, Hd' in B1. rewrite Hf, Hf' in B2. auto. }
+      split.
+      { intros k. destruct (Hcore k) as (_&_&_&_&_&->&_). unfold sN. rewrite add_cause_since.
+        cbn [andb]. destruct (HMf k) as (_&Hr&_&_&Hs&_).
+        assert (Et : tracks (getn sM k) i = tracks (getn se k) i) by (unfold tracks; rewrite Hr; reflexivity).
+        rewrite Et, Hs. reflexivity. }
+      split.
+      { intros k Hk. destruct (OR k) as [O1 O2]. rewrite HNsubs in O1, O2.
+        destruct (HN k) as (_&_&Hs&_&_&_&Hd&_). rewrite Hs, HMst in O1.
+        destruct (HMf k) as (_&_&_&_&_&Hq&_). unfold qview_eq in Hq. destruct Hq as (Hd'&_).
+        rewrite Hd, Hd' in O2. destruct (Nat.eqb_spec k i); [congruence|].
+        split; intros H; [destruct (O1 H) as [?|[? ?]]|destruct (O2 H) as [?|[? ?]]]; auto. }
       split; [|discriminate].
-      intros _ k Hk Hsk Hmk. rewrite <- HNsubs in Hk. destruct (DF k Hk Hsk) as [Hd _]. auto.
+      intros _ k Hk Hsk. apply DF; auto. rewrite HNsubs. exact Hk.
     - (* unchanged *)
-      split; [unfold sM; rewrite nlen_updn; reflexivity|].
-      split; [apply I|]. split; [reflexivity|].
-      split; [exact HMf|]. split; [exact HMca|].
+      split.
+      { split; [unfold sM; rewrite nlen_updn; reflexivity|]. split; [apply I|]. split; [reflexivity|].
+        split; [apply I|exact QM]. }
+      split.
+      { intros k. destruct (HMf k) as (?&?&?&?&?&Hq&?). unfold qview_eq in Hq. intuition. }
+      split; [exact HMca|].
       split; [rewrite HMst, Nat.eqb_refl; reflexivity|].
       split.
       { intros k Hk. rewrite HMst. destruct (Nat.eqb_spec k i); [congruence|apply st_le_refl]. }
       split.
       { intros k _ Hk Hc. rewrite HMst. destruct (Nat.eqb_spec k i); [congruence|auto]. }
-      split; [exact HcurM|]. split; [discriminate|].
-      intros _. unfold changed_of in Ech. destruct cm; [|discriminate].
-      unfold GraphInvariant.cur, cache_val.
-      unfold GraphInvariant.memob in Hm. destruct (decl_of p i); try discriminate.
+      split; [exact HcurM|].
+      split.
+      { intros k. destruct (HMf k) as (_&_&_&_&_&Hq&_). unfold qview_eq in Hq. destruct Hq as (->&->&_).
+        unfold bool_le; auto. }
+      split; [intros k; cbn [andb]; apply HMf|].
+      split.
+      { intros k Hk. rewrite HMst. destruct (Nat.eqb_spec k i); [congruence|].
+        destruct (HMf k) as (_&_&_&_&_&Hq&_). unfold qview_eq in Hq. destruct Hq as (->&_). auto. }
+      split; [discriminate|].
+      intros _. unfold ch, changed_of in Ech. destruct cm; [|discriminate].
+      unfold GraphInvariant.cur, cache_val. rewrite Hdi.
       destruct (cache (getn se i)); [|discriminate].
       apply negb_false_iff in Ech. apply Z.eqb_eq in Ech. auto. }
-  destruct Hfin as (Fl & Fe & Fh & Ff & Fca & Fsi & Fle & Fst & Fcur & Fdirty & Fsame).
+  destruct Hfin as ((Fl & Fe & Fh & Fn & FQ) & Ff & Fca & Fsi & Fle & Fst & Fcur & Fbl & Fsince & Forigin & Fdirty & Fsame).
   assert (Frl : forall k, rlog (getn s' k) = rlog (getn se k)) by (intros k; apply Ff).
   assert (Fsr : forall k, srcs (getn s' k) = srcs (getn se k)) by (intros k; apply Ff).
   assert (Fcak : forall k, k <> i -> cache (getn s' k) = cache (getn se k)).
@@ -436,50 +513,77 @@ Proof.
   { intros x Hmx Hc. destruct (Nat.eq_dec x i) as [->|Hx]; auto. }
   assert (W' : WF s').
   { apply (WF_same_edges p se s'); auto. intros k. destruct (Ff k) as (_&_&?&?&_). auto. }
-  split; [|split; [|split]]; auto.
-  - split; [split|].
+  (* a resting node other than i that needs something needed it already *)
+  assert (Hnc_mono : forall k, k <> i -> needs_cur p s' k -> needs_cur p se k).
+  { intros k Hk. unfold GraphInvariant.needs_cur, needs_cur_n, hasrun_n.
+    destruct (Ff k) as (_&_&_&_&Hfi&_&Hal&_). destruct (Fbl k) as [Bd _]. rewrite (Fcak k Hk), Hal, Hfi.
+    destruct (decl_of p k) as [| | |kd b h]; auto.
+    - intros [Hc Hd]. split; auto. intros E. apply Hd. apply st_le_dirty. rewrite <- E. apply Fle; auto.
+    - intros (Ha & Hh & Hd). split; auto. split; auto.
+      destruct (edirty (getn se k)) eqn:E; auto. rewrite (Bd eq_refl) in Hd. discriminate. }
+  assert (Hncl_mono : forall k, k <> i -> needs_clean p s' k -> needs_clean p se k).
+  { intros k Hk. unfold GraphInvariant.needs_clean, needs_clean_n, hasrun_n.
+    destruct (Ff k) as (_&_&_&_&Hfi&_&Hal&_&Hmi&Hpo). destruct (Fbl k) as [Bd Bf].
+    rewrite (Fcak k Hk), Hal, Hfi, Hmi, Hpo.
+    destruct (decl_of p k) as [| | |kd b h]; auto.
+    - intros [Hc Hd]. split; auto. apply st_le_clean. rewrite <- Hd. apply Fle; auto.
+    - intros (Ha & Hh & Hd & Hf & Hrest). split; auto. split; auto.
+      split; [destruct (edirty (getn se k)) eqn:E; auto; rewrite (Bd eq_refl) in Hd; discriminate|].
+      split; [destruct (eflag (getn se k)) eqn:E; auto; rewrite (Bf eq_refl) in Hf; discriminate|auto]. }
+  split; [|split; [|split; [|split]]]; auto.
+  - split.
     + exact W'.
     + exact Fe.
+    + exact Fn.
     + intros k Hk. destruct (Nat.eq_dec k i) as [->|Hki].
-      * apply (L1_ext se s' i (Frl i) (Fsr i)). exact HL1.
-      * apply (L1_ext se s' k (Frl k) (Fsr k)). apply I; auto.
-    + intros k Hmk Hk. destruct (Nat.eq_dec k i) as [->|Hki].
-      * unfold GraphInvariant.MemoOKc. rewrite Fca, Nat.eqb_refl. intros _ x w Hx Hmx.
-        rewrite Frl in Hx. apply Fclean; auto. eapply Hfr_clean; eauto.
-      * pose proof (inv_memo_c _ _ _ _ I k Hmk (Hnin k Hk Hki)) as HM.
-        unfold GraphInvariant.MemoOKc in *. rewrite (Fcak k Hki), Frl.
-        destruct (cache (getn se k)).
-        -- intros Hc x w Hx Hmx. apply Fclean; auto.
-           assert (Hcs : st (getn se k) = Clean) by (apply st_le_clean; rewrite <- Hc; apply Fle; auto).
-           rewrite Frl in Hx. apply (HM Hcs x w Hx Hmx).
-        -- destruct HM as [Hd Hr]. split; auto. apply st_le_dirty. rewrite <- Hd. apply Fle; auto.
-    + intros k Hk x w Hx. rewrite Frl in Hx. rewrite Fcurk.
-      * eapply inv_run_cur; eauto. right; auto.
-      * intros ->. apply (Hnl k Hk). apply in_tracked_of. eauto.
-    + intros k Hk x w Hx Hmx. rewrite Frl in Hx. apply Fclean; auto.
-      eapply inv_run_clean; eauto. right; auto.
-    + intros k x Hk. rewrite Fsr, Frl. apply (inv_run_src _ _ _ _ I k x). right; auto.
-    + intros k Hk. apply (inv_run_ge _ _ _ _ I k). right; auto.
-    + intros k Hk. apply (inv_run_range _ _ _ _ I k). right; auto.
-    + intros k Hk Hmk Hc. apply (inv_run_nc _ _ _ _ I k (or_intror Hk) Hmk).
-      apply st_le_clean. rewrite <- Hc. apply Fle; auto.
-    + intros k Hmk Hk. unfold GraphInvariant.MemoOKv. intros Hcn Hd x w Hx. rewrite Frl in Hx.
-      destruct (Nat.eq_dec k i) as [->|Hki].
-      * rewrite Fcurk by (eapply Hsrc_lt; eauto). eapply Hfr_cur; eauto.
-      * assert (Hkn : ~ In k (i :: stk)) by auto.
-        assert (Hcur_se : cur se x = w).
-        { apply (Iv k Hmk Hkn); auto.
-          - rewrite <- (Fcak k Hki). exact Hcn.
-          - intros Hds. apply Hd. apply st_le_dirty. rewrite <- Hds. apply Fle; auto. }
-        destruct (Nat.eq_dec x i) as [->|Hxi]; [|rewrite Fcurk; auto].
-        rewrite Fcur, Nat.eqb_refl.
-        destruct (changed_of cm (cache (getn se i)) v) eqn:Ech.
-        -- exfalso. apply Hd. apply (Fdirty eq_refl k); auto.
-           ++ eapply wf_src_sub; eauto. rewrite (inv_l1 _ _ _ _ I k Hkn). apply in_tracked_of. eauto.
-           ++ destruct (obs_is c k) eqn:Eo; auto. exfalso. apply Hk.
-              unfold obs_is in Eo. destruct (obs_of c) as [o|] eqn:Eoc; [|discriminate].
-              apply Nat.eqb_eq in Eo. subst. apply Hobs; auto.
-        -- rewrite <- Hcur_se. symmetry. apply Fsame; auto.
+      * (* i itself, now at rest and Clean *)
+        split; [apply (L1_ext se s' i (Frl i) (Fsr i)); exact HL1|].
+        unfold GraphInvariant.needs_cur, GraphInvariant.needs_clean, GraphInvariant.will_run.
+        rewrite Hdi. cbn [uncached_ok needs_cur_n needs_clean_n will_run_n].
+        rewrite Fca, Nat.eqb_refl. split; [discriminate|]. split; [|split].
+        -- intros _ x w Hx. rewrite Frl in Hx. rewrite Fcurk by (eapply Hsrc_lt; eauto). eapply Hfr_cur; eauto.
+        -- intros _ x w Hx Hmx. rewrite Frl in Hx. apply Fclean; auto. eapply Hfr_clean; eauto.
+        -- intros [_ Hd]. congruence.
+      * destruct (inv_rest _ _ _ _ I k (Hnin k Hk Hki)) as (R1 & R2 & R3 & R4 & R5).
+        split; [apply (L1_ext se s' k (Frl k) (Fsr k)); exact R1|].
+        split.
+        { unfold uncached_ok in *. destruct (decl_of p k); auto. rewrite (Fcak k Hki), Frl.
+          intros Hc. destruct (R2 Hc) as [Hd Hr]. split; auto. apply st_le_dirty. rewrite <- Hd. apply Fle; auto. }
+        split; [|split].
+        -- intros Hn x w Hx. rewrite Frl in Hx.
+           pose proof (R3 (Hnc_mono k Hki Hn) x w Hx) as Hcx.
+           destruct (Nat.eq_dec x i) as [->|Hxi]; [|rewrite Fcurk; auto].
+           rewrite Fcur, Nat.eqb_refl. destruct ch eqn:Ech.
+           ++ exfalso. apply (DirtyAt_not_needs_cur s' k); auto. apply (Fdirty eq_refl).
+              ** eapply wf_src_sub; eauto. rewrite R1. apply in_tracked_of. eauto.
+              ** destruct (obs_is c k) eqn:Eo; auto. exfalso. apply Hk.
+                 unfold obs_is in Eo. destruct (obs_of c) as [o|] eqn:Eoc; [|discriminate].
+                 apply Nat.eqb_eq in Eo. subst. apply Hobs; auto.
+           ++ rewrite <- Hcx. symmetry. apply Fsame; auto.
+        -- intros Hn x w Hx Hmx. rewrite Frl in Hx. apply Fclean; auto.
+           apply (R4 (Hncl_mono k Hki Hn) x w Hx Hmx).
+        -- intros Hw. rewrite Fsince.
+           assert (Hcase : will_run p se k \/ (ch = true /\ In k (subs (getn se i)))).
+           { unfold GraphInvariant.will_run, will_run_n, hasrun_n in *.
+             destruct (Ff k) as (_&_&_&_&Hfi&_&Hal&_). rewrite (Fcak k Hki), Hal, Hfi in Hw.
+             destruct (Forigin k Hki) as [O1 O2].
+             destruct (decl_of p k) as [| | |kd b h]; try contradiction.
+             - destruct Hw as [Hc Hd]. destruct (O1 Hd) as [?|(?&?&?)]; auto.
+             - destruct Hw as (Ha & Hh & Hd). destruct (O2 Hd) as [?|(?&?&?)]; auto. }
+           destruct Hcase as [Hold|[Hch Hin]].
+           ++ destruct (ch && tracks (getn se k) i); [discriminate|apply R5; auto].
+           ++ assert (Ht : tracks (getn se k) i = true).
+              { apply tracks_iff. rewrite <- R1. eapply wf_sub_src; eauto. }
+              rewrite Hch, Ht. discriminate.
+    + exact FQ.
+    + intros k Hk. pose proof (inv_frame _ _ _ _ I k (or_intror Hk)) as Fk.
+      apply (Frame_ext p i se s' k (Frl k) (Fsr k)); [| | | |exact Fk].
+      * intros Hmk Hc E. apply Hc. apply st_le_clean. rewrite <- E. apply Fle; auto.
+      * intros He Hd0. destruct (edirty (getn s' k)) eqn:Ed; auto.
+        destruct (Forigin k (Hnk k Hk)) as [_ O2]. destruct (O2 Ed) as [?|(_ & Hin & Hsk)]; [congruence|].
+        exfalso. apply (Hpend k Hk Hsk Hin).
+      * intros x w Hx. apply Fcurk. intros ->. apply (Hnl k Hk). apply in_tracked_of. eauto.
+      * intros x w _ Hmx Hc. apply Fclean; auto.
   - split.
     + exact Fl.
     + exact Ff.
@@ -487,6 +591,8 @@ Proof.
     + intros k Hmk Hk Hc. apply Fst; auto.
     + exact Fh.
   - rewrite Fca, Nat.eqb_refl. reflexivity.
+  - intros Hch k Hk. rewrite Frl in Hk. rewrite Fsince. fold ch in Hch. rewrite Hch.
+    apply tracks_iff in Hk. rewrite Hk. discriminate.
 Qed.
 
 End P.
